@@ -109,3 +109,29 @@ Theorem C14_search_before_fix_refuted :
 Proof. exact tsearch_before_fix_refuted. Qed.
 Print Assumptions C14_both_winners_passed_the_configured_vigilance.
 Print Assumptions C14_search_before_fix_refuted.
+
+(* a pruning round that leaves at least one category leaves no sample of the data set at -1: orphans of this round and
+   samples an earlier round had marked -1 are re-predicted with the pruned model (wave-7 seed C17_7 skipped exactly that) *)
+From ART Require Import Topo_noise.
+Theorem C14_pruning_round_with_survivors_leaves_no_noise :
+  forall (N : Num) (K : Kernel N) (phi : nat) (s : topo (N:=N)) X s',
+    prune K phi s X = Some s' -> W (TB s') <> [] ->
+    forall j : nat, (j < length X)%nat -> (j < length (tlab s))%nat -> exists c : nat, nth_error (tlab s') j = Some (Z.of_nat c).
+Proof. exact @prune_leaves_no_noise. Qed.
+Theorem C14_earlier_noise_is_relabelled :
+  forall (N : Num) (K : Kernel N) (phi : nat) (s : topo (N:=N)) X s' (j : nat),
+    prune K phi s X = Some s' -> W (TB s') <> [] -> (j < length X)%nat -> nth_error (tlab s) j = Some (-1)%Z ->
+    exists c : nat, nth_error (tlab s') j = Some (Z.of_nat c).
+Proof. exact @earlier_noise_is_relabelled. Qed.
+Print Assumptions C14_pruning_round_with_survivors_leaves_no_noise.
+Print Assumptions C14_earlier_noise_is_relabelled.
+
+(* a fit of a TopoART with a history is the fit of a freshly constructed one: adjacency and permanence flags of the
+   earlier history are replaced by the first step (wave-7 seed C14_7 kept the flags) *)
+From ART Require Import Topo_refit.
+Theorem C14_fit_forgets_the_previous_history :
+  forall (N : Num) (K Klow : Kernel N) (tau phi : nat) (s : topo (N:=N)) X veto mode eps,
+    X <> [] -> valid K (TB s) X = true -> valid K (TB (topo_init (rho (TB s)))) X = true ->
+    topo_fit K Klow tau phi s X veto mode eps = topo_fit K Klow tau phi (topo_init (rho (TB s))) X veto mode eps.
+Proof. exact @topo_fit_forgets. Qed.
+Print Assumptions C14_fit_forgets_the_previous_history.
